@@ -67,6 +67,8 @@ class Renderer(object):
                 ln["blank"] = rnd.choice([u"", u"   ", u"\t"])
             t, kw = render.to_text(ln, a, b, texts, rnd)
             ln["kw"] = kw
+            if ln["c"] != "_":
+                t += rnd.choice([u"", u"", u"", u" ", u"\t", u"   "])           # trailing blanks are legal everywhere
             out.append(t)
             spec.append(render.spec_line(ln))
         text = u"\n".join(out)
